@@ -11,5 +11,6 @@ func init() {
 		pRetryExact: 10, pRetryConfl: 5, pStaleAuth: 6, pEqualAuth: 12, pFenced: 4,
 		pScenario: 45, pSmallCap: 20, maxOps: 22, pWrongExpect: 6,
 		pBareQuorum: 32, pLostAcks: 12, pMinorityResp: 34,
+		pRepair: 4, pMdb: 8, pSameTerm: 3,
 	}), NewRunner: func() Runner { return newReplRunner() }})
 }
